@@ -95,7 +95,10 @@ def _has_reference_cycle(value, parents=()) -> bool:
 def yaml_load(stream):
     import yaml
 
-    value = yaml.load(stream, Loader=get_yaml_default_loader())
+    try:
+        value = yaml.load(stream, Loader=get_yaml_default_loader())
+    except ValueError as ex:  # a scalar constructor failed, e.g. int("0x_")
+        raise yaml.YAMLError(str(ex)) from ex
     if _has_reference_cycle(value):
         raise yaml.YAMLError("self-referential aliases are not supported")
     if isinstance(value, dict) and value and all(v is None for v in value.values()):
